@@ -190,192 +190,203 @@ func (p *c18) Exec(ctx core.Ctx, cc any) core.Obs {
 		return refEntry{}, -1, false
 	}
 
-	for _, name := range c18Names {
-		exp, li, has := first(name)
-		// ReadFile
-		o.Evals++
-		data, err := fs.ReadFile(ov, name)
-		switch {
-		case !has:
-			if err == nil || !errors.Is(err, fs.ErrNotExist) {
-				o.Fail(c, "readfile/absent-not-notexist", "ReadFile(%q) on a path present in no layer: got data=%q err=%v, want fs.ErrNotExist", name, data, err)
-			}
-			o.Cell("readfile/absent")
-		case exp.dir:
-			if err == nil {
-				o.Fail(c, "readfile/dir-no-error", "ReadFile(%q): first layer having it (%d) has a directory, got data=%q and no error", name, li, data)
-			}
-			o.Cell("readfile/dir")
-		default:
-			if err != nil || string(data) != exp.data {
-				o.Fail(c, "readfile/wrong-layer", "ReadFile(%q): want %q from layer %d, got %q err=%v", name, exp.data, li, data, err)
-			}
-			o.Cell(fmt.Sprintf("readfile/file@layer%d", li))
+	// every query is made twice on the same overlay: what a query answers must
+	// not depend on the queries (Glob, ReadDir, Open ...) made before it
+	pass := 0
+	fail := func(sig, format string, args ...any) {
+		if pass > 0 {
+			sig += "/on-a-used-overlay"
 		}
-		// Stat
-		o.Evals++
-		info, err := fs.Stat(ov, name)
-		switch {
-		case !has:
-			if err == nil || !errors.Is(err, fs.ErrNotExist) {
-				o.Fail(c, "stat/absent-not-notexist", "Stat(%q) on a path present in no layer: err=%v, want fs.ErrNotExist", name, err)
-			}
-		case err != nil:
-			o.Fail(c, "stat/error", "Stat(%q): layer %d has it, got err=%v", name, li, err)
-		default:
-			wantSize := int64(len(exp.data))
-			if info.IsDir() != exp.dir || info.Mode() != exp.mode || !info.ModTime().Equal(exp.modTime) || (!exp.dir && info.Size() != wantSize) {
-				o.Fail(c, "stat/metadata-wrong-layer", "Stat(%q): want dir=%v mode=%v mtime=%v size=%d (layer %d), got dir=%v mode=%v mtime=%v size=%d",
-					name, exp.dir, exp.mode, exp.modTime, wantSize, li, info.IsDir(), info.Mode(), info.ModTime(), info.Size())
-			}
-			o.Cell(fmt.Sprintf("stat/@layer%d", li))
-		}
+		o.Fail(c, sig, format, args...)
 	}
+	for pass = 0; pass < 2; pass++ {
+		for _, name := range c18Names {
+			exp, li, has := first(name)
+			// ReadFile
+			o.Evals++
+			data, err := fs.ReadFile(ov, name)
+			switch {
+			case !has:
+				if err == nil || !errors.Is(err, fs.ErrNotExist) {
+					fail("readfile/absent-not-notexist", "ReadFile(%q) on a path present in no layer: got data=%q err=%v, want fs.ErrNotExist", name, data, err)
+				}
+				o.Cell("readfile/absent")
+			case exp.dir:
+				if err == nil {
+					fail("readfile/dir-no-error", "ReadFile(%q): first layer having it (%d) has a directory, got data=%q and no error", name, li, data)
+				}
+				o.Cell("readfile/dir")
+			default:
+				if err != nil || string(data) != exp.data {
+					fail("readfile/wrong-layer", "ReadFile(%q): want %q from layer %d, got %q err=%v", name, exp.data, li, data, err)
+				}
+				o.Cell(fmt.Sprintf("readfile/file@layer%d", li))
+			}
+			// Stat
+			o.Evals++
+			info, err := fs.Stat(ov, name)
+			switch {
+			case !has:
+				if err == nil || !errors.Is(err, fs.ErrNotExist) {
+					fail("stat/absent-not-notexist", "Stat(%q) on a path present in no layer: err=%v, want fs.ErrNotExist", name, err)
+				}
+			case err != nil:
+				fail("stat/error", "Stat(%q): layer %d has it, got err=%v", name, li, err)
+			default:
+				wantSize := int64(len(exp.data))
+				if info.IsDir() != exp.dir || info.Mode() != exp.mode || !info.ModTime().Equal(exp.modTime) || (!exp.dir && info.Size() != wantSize) {
+					fail("stat/metadata-wrong-layer", "Stat(%q): want dir=%v mode=%v mtime=%v size=%d (layer %d), got dir=%v mode=%v mtime=%v size=%d",
+						name, exp.dir, exp.mode, exp.modTime, wantSize, li, info.IsDir(), info.Mode(), info.ModTime(), info.Size())
+				}
+				o.Cell(fmt.Sprintf("stat/@layer%d", li))
+			}
+		}
 
-	// ReadDir on every directory-like name and the root
-	for _, name := range []string{".", "d", "e", "a", "nope"} {
-		o.Evals++
-		want := map[string]bool{} // entry name -> isDir
-		anyDir, anyFile := false, false
-		for _, r := range refs {
-			if r == nil {
-				continue
-			}
-			isDirHere := name == "."
-			if e, ok := r[name]; ok {
-				if e.dir {
-					isDirHere = true
-				} else {
-					anyFile = true
+		// ReadDir on every directory-like name and the root
+		for _, name := range []string{".", "d", "e", "a", "nope"} {
+			o.Evals++
+			want := map[string]bool{} // entry name -> isDir
+			anyDir, anyFile := false, false
+			for _, r := range refs {
+				if r == nil {
+					continue
 				}
-			}
-			if !isDirHere {
-				continue
-			}
-			anyDir = true
-			for k, e := range r {
-				var child string
-				if name == "." {
-					if strings.Contains(k, "/") {
-						continue
+				isDirHere := name == "."
+				if e, ok := r[name]; ok {
+					if e.dir {
+						isDirHere = true
+					} else {
+						anyFile = true
 					}
-					child = k
-				} else {
-					if !strings.HasPrefix(k, name+"/") {
-						continue
+				}
+				if !isDirHere {
+					continue
+				}
+				anyDir = true
+				for k, e := range r {
+					var child string
+					if name == "." {
+						if strings.Contains(k, "/") {
+							continue
+						}
+						child = k
+					} else {
+						if !strings.HasPrefix(k, name+"/") {
+							continue
+						}
+						child = strings.TrimPrefix(k, name+"/")
 					}
-					child = strings.TrimPrefix(k, name+"/")
-				}
-				if _, dup := want[child]; !dup {
-					want[child] = e.dir
+					if _, dup := want[child]; !dup {
+						want[child] = e.dir
+					}
 				}
 			}
+			got, err := fs.ReadDir(ov, name)
+			kind := "dir"
+			switch {
+			case name == "." && nonNil == 0:
+				// root of an all-nil overlay: exists and is empty (pinned by the repository's tests)
+				if err != nil || len(got) != 0 {
+					fail("readdir/root-all-nil", "ReadDir('.') on an overlay of nil layers: got %d entries err=%v, want empty listing", len(got), err)
+				}
+				continue
+			case !anyDir && !anyFile:
+				kind = "absent"
+				if err == nil || !errors.Is(err, fs.ErrNotExist) {
+					fail("readdir/absent-not-notexist/"+shapeNil(nonNil), "ReadDir(%q) on a path present in no layer: got %d entries err=%v, want fs.ErrNotExist", name, len(got), err)
+				}
+			case !anyDir && anyFile:
+				kind = "file"
+				if err == nil {
+					fail("readdir/file-no-error", "ReadDir(%q): only a regular file exists, got %d entries and no error", name, len(got))
+				}
+			default:
+				if anyFile {
+					kind = "dir+file"
+				}
+				if err != nil {
+					sig := "readdir/error-on-existing-dir"
+					if len(want) == 0 {
+						sig = "readdir/empty-dir-reported-as-error"
+					}
+					fail(sig, "ReadDir(%q): a layer has this directory (union has %d entries), got err=%v", name, len(want), err)
+					break
+				}
+				var gotNames []string
+				for _, e := range got {
+					gotNames = append(gotNames, e.Name())
+				}
+				var wantNames []string
+				for k := range want {
+					wantNames = append(wantNames, k)
+				}
+				sort.Strings(wantNames)
+				if strings.Join(gotNames, ",") != strings.Join(wantNames, ",") {
+					sig := "readdir/wrong-union"
+					if sort.StringsAreSorted(gotNames) == false {
+						sig = "readdir/unsorted"
+					}
+					fail(sig, "ReadDir(%q): want %v, got %v", name, wantNames, gotNames)
+					break
+				}
+				for _, e := range got {
+					if e.IsDir() != want[e.Name()] {
+						fail("readdir/lower-entry-shadows-upper", "ReadDir(%q): entry %q isDir=%v, but the uppermost layer listing it says isDir=%v", name, e.Name(), e.IsDir(), want[e.Name()])
+					}
+				}
+			}
+			o.Cell("readdir/" + kind + "/" + shape)
 		}
-		got, err := fs.ReadDir(ov, name)
-		kind := "dir"
-		switch {
-		case name == "." && nonNil == 0:
-			// root of an all-nil overlay: exists and is empty (pinned by the repository's tests)
-			if err != nil || len(got) != 0 {
-				o.Fail(c, "readdir/root-all-nil", "ReadDir('.') on an overlay of nil layers: got %d entries err=%v, want empty listing", len(got), err)
-			}
-			continue
-		case !anyDir && !anyFile:
-			kind = "absent"
-			if err == nil || !errors.Is(err, fs.ErrNotExist) {
-				o.Fail(c, "readdir/absent-not-notexist/"+shapeNil(nonNil), "ReadDir(%q) on a path present in no layer: got %d entries err=%v, want fs.ErrNotExist", name, len(got), err)
-			}
-		case !anyDir && anyFile:
-			kind = "file"
-			if err == nil {
-				o.Fail(c, "readdir/file-no-error", "ReadDir(%q): only a regular file exists, got %d entries and no error", name, len(got))
-			}
-		default:
-			if anyFile {
-				kind = "dir+file"
-			}
-			if err != nil {
-				sig := "readdir/error-on-existing-dir"
-				if len(want) == 0 {
-					sig = "readdir/empty-dir-reported-as-error"
-				}
-				o.Fail(c, sig, "ReadDir(%q): a layer has this directory (union has %d entries), got err=%v", name, len(want), err)
-				break
-			}
-			var gotNames []string
-			for _, e := range got {
-				gotNames = append(gotNames, e.Name())
-			}
-			var wantNames []string
-			for k := range want {
-				wantNames = append(wantNames, k)
-			}
-			sort.Strings(wantNames)
-			if strings.Join(gotNames, ",") != strings.Join(wantNames, ",") {
-				sig := "readdir/wrong-union"
-				if sort.StringsAreSorted(gotNames) == false {
-					sig = "readdir/unsorted"
-				}
-				o.Fail(c, sig, "ReadDir(%q): want %v, got %v", name, wantNames, gotNames)
-				break
-			}
-			for _, e := range got {
-				if e.IsDir() != want[e.Name()] {
-					o.Fail(c, "readdir/lower-entry-shadows-upper", "ReadDir(%q): entry %q isDir=%v, but the uppermost layer listing it says isDir=%v", name, e.Name(), e.IsDir(), want[e.Name()])
-				}
-			}
-		}
-		o.Cell("readdir/" + kind + "/" + shape)
-	}
 
-	// Glob
-	for _, pat := range c18Globs {
-		o.Evals++
-		set := map[string]bool{}
-		bad := false
-		for _, l := range layers {
-			if l == nil {
+		// Glob
+		for _, pat := range c18Globs {
+			o.Evals++
+			set := map[string]bool{}
+			bad := false
+			for _, l := range layers {
+				if l == nil {
+					continue
+				}
+				m, err := fs.Glob(l, pat)
+				if err != nil {
+					bad = true
+				}
+				for _, x := range m {
+					set[x] = true
+				}
+			}
+			got, err := fs.Glob(ov, pat)
+			if bad || pat == "[a" {
+				o.Cell("glob/malformed")
+				continue // only required not to panic
+			}
+			var want []string
+			for k := range set {
+				want = append(want, k)
+			}
+			sort.Strings(want)
+			if err != nil {
+				fail("glob/error", "Glob(%q): err=%v", pat, err)
 				continue
 			}
-			m, err := fs.Glob(l, pat)
-			if err != nil {
-				bad = true
+			if strings.Join(got, ",") != strings.Join(want, ",") {
+				sig := "glob/wrong-union"
+				if !sort.StringsAreSorted(got) {
+					sig = "glob/unsorted"
+				} else if hasDup(got) {
+					sig = "glob/duplicates"
+				}
+				fail(sig, "Glob(%q): want %v, got %v", pat, want, got)
 			}
-			for _, x := range m {
-				set[x] = true
+			if len(want) > 0 {
+				o.Cell("glob/matches/" + shape)
+			} else {
+				o.Cell("glob/empty/" + shape)
 			}
 		}
-		got, err := fs.Glob(ov, pat)
-		if bad || pat == "[a" {
-			o.Cell("glob/malformed")
-			continue // only required not to panic
+		if nonNil >= 2 {
+			o.Sample = map[string]any{"layers": c.Layers, "queries": len(c18Names)*2 + 5 + len(c18Globs)}
 		}
-		var want []string
-		for k := range set {
-			want = append(want, k)
-		}
-		sort.Strings(want)
-		if err != nil {
-			o.Fail(c, "glob/error", "Glob(%q): err=%v", pat, err)
-			continue
-		}
-		if strings.Join(got, ",") != strings.Join(want, ",") {
-			sig := "glob/wrong-union"
-			if !sort.StringsAreSorted(got) {
-				sig = "glob/unsorted"
-			} else if hasDup(got) {
-				sig = "glob/duplicates"
-			}
-			o.Fail(c, sig, "Glob(%q): want %v, got %v", pat, want, got)
-		}
-		if len(want) > 0 {
-			o.Cell("glob/matches/" + shape)
-		} else {
-			o.Cell("glob/empty/" + shape)
-		}
-	}
-	if nonNil >= 2 {
-		o.Sample = map[string]any{"layers": c.Layers, "queries": len(c18Names)*2 + 5 + len(c18Globs)}
 	}
 	return o
 }
